@@ -47,7 +47,8 @@ LEVEL_TEXT = ('Deviation-bounded product enumeration (complete at 0, 1 and 2 dev
               'thorough tier over reduced alphabets) of species fields and writer/reader options, and an '
               'explicit-state walk of the reader line automaton over every ordered list of up to 3 (4) species '
               'from a menu of 8 marked species; every file is decoded by an independent fixed-column parser and '
-              'by read_thermdat and compared with what was written.')
+              'by read_thermdat and compared with what was written; each shard first runs a call history in its '
+              'fresh process to show that a write/read does not depend on earlier calls.')
 LEVEL_NOTE = ('Finite alphabets on the column/width boundaries of the format; lists up to 200 species; names '
               'starting with "!" excluded; duplicate names with dict output only checked for "no foreign entry".')
 TECHNIQUE = ('deviation-bounded exhaustive product enumeration + explicit-state exploration of the reader line '
@@ -125,10 +126,10 @@ def _elements_alphabet(tier):
                     c = list(base)
                     c[i] = r
                     add([_slot(k, v[0], v[1]) for k, v in enumerate(c)])
-            for i, j in itertools.combinations(range(n), 2):
-                for r, s in itertools.product(red[1:], repeat=2):
+            for i in range(n - 1):                 # adjacent slots both deviating (field overflow into the next)
+                for r, s in itertools.product(red[2:], repeat=2):
                     c = list(base)
-                    c[i], c[j] = r, s
+                    c[i], c[i + 1] = r, s
                     add([_slot(k, v[0], v[1]) for k, v in enumerate(c)])
     # zero-count entries (omitted by the writer)
     add([['He', 0, 'int'], ['H', 2, 'int']])
@@ -241,6 +242,85 @@ def _list_cases(tier):
                        newline=newline)
 
 
+# ------------------------------------------------------------------ call histories
+def _plain(name, elements, phase='G', T=None, notes=None, m=0):
+    return dict(name=name, elements=[[s, n, 'int'] for s, n in elements], phase=phase,
+                T=T or [100.0, 500.0, 1500.0], notes=notes, a=_marked(m))
+
+
+def _call(species, write_date=True, supp_data=None, supp_txt=None, container='list', fmt='list', newline='\n'):
+    return dict(kind='call', species=species, write_date=write_date, supp_data=supp_data, supp_txt=supp_txt,
+                container=container, fmt=fmt, newline=newline)
+
+
+def _history_menu():
+    return [
+        _call([_plain('H2', [['H', 2]], m=0)]),
+        _call([_plain('CO2', [['C', 1], ['O', 2]], notes='abc', m=1)], write_date=False),
+        _call([_plain('PT(S)', [['Pt', 1]], phase='S', T=[298.15, 1000.05, 9999.9], m=2)], container='dict',
+              newline='\r\n'),
+        _call([_plain('H2O', [['H', 2], ['O', 1]], m=3), _plain('NH3', [['N', 1], ['H', 3]], m=4)], fmt='tuple'),
+        _call([_plain('CH4', [['C', 1], ['H', 4]], m=5)], supp_data='one', fmt='dict'),
+        _call([_plain('O', [['O', 1]], m=6)], supp_txt='!comment'),
+        _call([_plain('CH3OH', [['C', 1], ['H', 4], ['O', 1]], phase='L', m=7)], write_date=False),
+        _call([_plain('N2', [['N', 2]], m=8), _plain('AR', [['Ar', 1]], m=9), _plain('HE', [['He', 1]], m=10)],
+              container='dict', fmt='dict'),
+    ]
+
+
+def _history_case(k):
+    """History number k: call c0, then 1-4 other calls, then c0 again."""
+    menu = _history_menu()
+    n = len(menu)
+    start, between = k % n, 1 + (k // n) % 4
+    calls = [menu[start]] + [menu[(start + 1 + j) % n] for j in range(between)] + [menu[start]]
+    return dict(kind='history', k=k, calls=calls)
+
+
+C_H1 = 'repeatable: the same collection written and read again after other calls gives the same file and species'
+
+
+def _outcome(call, env):
+    """Observable result of one write+read: ('ok', file image, projections) or ('exc', type, where)."""
+    from pmutt.io.thermdat import read_thermdat
+    from pmc.engine.core import classify_exception
+    try:
+        objs = [_build(sp) for sp in call['species']]
+        _write(objs, call, env.path)
+        with open(env.path, 'rb') as f:
+            image = f.read().decode('ascii')
+        res = read_thermdat(env.path, format=call['fmt'])
+        seq = list(res.values()) if isinstance(res, dict) else list(res)
+        return ['ok', image, [_proj_nasa(o) for o in seq]]
+    except Exception as e:
+        where = classify_exception(e)
+        if where is None:
+            raise
+        return ['exc', type(e).__name__, where]
+
+
+def _evaluate_history(case, ctx, env):
+    sig = dict(kind='history')
+
+    def fn(case_, ctx_):
+        outs = []
+        for i, call in enumerate(case_['calls']):
+            outs.append(_outcome(call, env))
+            ctx_.trace()
+            ctx_.trans()
+            ctx_.state(('history', case_['k'], i))
+        ctx_.tag('history:repeat-after-%d-calls' % (len(case_['calls']) - 2))
+        first, last = outs[0], outs[-1]
+        ok = ctx_.equal(C_H1, last, first, sig, case_)
+        return ok
+    res = {}
+
+    def run(case_, ctx_):
+        res['ok'] = fn(case_, ctx_)
+    ctx.run_case(run, case, sig)
+    return bool(res.get('ok'))
+
+
 # ------------------------------------------------------------------ runner API
 def bounds(tier):
     co = _coords(tier)
@@ -251,7 +331,8 @@ def bounds(tier):
              element_counts=COUNTS, list_menu=[m['name'] for m in MENU],
              list_max_length=3 if tier == 'quick' else 4,
              long_lists=LONG_QUICK if tier == 'quick' else LONG_THOROUGH,
-             containers=['list', 'dict'], read_formats=['list', 'tuple', 'dict'], newlines=['\\n', '\\r\\n'])
+             containers=['list', 'dict'], read_formats=['list', 'tuple', 'dict'], newlines=['\\n', '\\r\\n'],
+             call_histories='%d (one per shard, first thing in a fresh process): call, 1-4 other calls, same call' % N_SHARDS)
     if tier == 'thorough':
         b['deviation_level_3_reduced_coordinates'] = {n: len(v) for n, v in _coords(tier, True)}
     return b
@@ -279,6 +360,11 @@ def run_shard(shard, ctx):
     _selftest_reference()
     env = _Env()
     try:
+        # the shard process is fresh here: first a call history (the stateless enumeration below is only
+        # meaningful - and replayable - if a call's result does not depend on earlier calls)
+        if not _evaluate_history(_history_case(k), ctx, env):
+            ctx.refuse('shard stopped after its call history failed: per-case results would depend on call order')
+            return
         for i, (kind, co, x) in enumerate(_all_cases(ctx.tier)):
             if i % n != k:
                 continue
@@ -294,7 +380,10 @@ def run_shard(shard, ctx):
 def check_case(case, ctx):
     env = _Env()
     try:
-        _evaluate(case, ctx, env)
+        if case['kind'] == 'history':
+            _evaluate_history(case, ctx, env)
+        else:
+            _evaluate(case, ctx, env)
     finally:
         env.close()
 
@@ -529,7 +618,7 @@ PLANNED_TAGS = ['name~END', 'name~THERMO', 'name:digit-first', 'name:len15', 'na
                 'notes~END', 'date:on', 'date:off', 'supp_data', 'supp_data:no-trailing-newline', 'supp_txt',
                 'container:list', 'container:dict', 'fmt:list', 'fmt:tuple', 'fmt:dict', 'newline:lf',
                 'newline:crlf', 'list:repeated-name', 'list:200', 'list:keyword-name-first',
-                'list:keyword-name-after-another']
+                'list:keyword-name-after-another', 'history:repeat-after-1-calls', 'history:repeat-after-4-calls']
 
 C_L1 = 'layout: every line is a header/comment/END line or an 80-column record numbered 1-4 in column 80, in sequence'
 C_L2 = 'layout: fixed-column parser finds as many species in the text as were written'
